@@ -51,7 +51,8 @@ var varyFields = []string{"X-A", "X-B", "Content-Language", "User-Agent", "Autho
 var fieldValues = map[string][]string{
 	"X-A":              {"1", "2", "1X-B2", "", "a, b", "b, a", "1 ", "é", "caf\xe9", "caf\xe8"},
 	"X-B":              {"2", "1", "", "x"},
-	"Content-Language": {"en, fr", "fr,en", "fr ,  en", "en", "EN", "en, fr, en"},
+	// (members that differ in ONE byte outside ASCII — obs-text is legal in a field value — are different members)
+	"Content-Language": {"en, fr", "fr,en", "fr ,  en", "en", "EN", "en, fr, en", "en, x-caf\xe9", "en, x-caf\xe8", "x-caf\xe9,en"},
 	"User-Agent":       {"Go-Client/1", "go-client/1", "GO-CLIENT/1", "other", "caf\xe9/1.0", "caf\xe8/1.0", "CAF\xe9/1.0"},
 	"Authorization": {"Basic abc", "BASIC abc", "basic abc", "Basic ABC", "Bearer t",
 		// credentials with auth-params: everything after the scheme is the credential, not only its first word
@@ -59,14 +60,16 @@ var fieldValues = map[string][]string{
 	"If-Unmodified-Since": {"Sat, 01 Jan 2000 00:00:00 GMT", " Sat, 01 Jan 2000 00:00:00 GMT ", "Sun, 02 Jan 2000 00:00:00 GMT"},
 	// the q-value classes: plain token lists (whose equivalence is order, white space, duplicates and the
 	// x-gzip / x-compress aliases, whatever a cache makes of q-values) and a few weighted ones
-	"Accept-Encoding": {"gzip, br", "br, gzip", "br,gzip", "gzip", "x-gzip, br", "xx-gzip", "xgzip", "gzip;q=0.5, br", "br, gzip;q=0.5", "identity"},
+	"Accept-Encoding": {"gzip, br", "br, gzip", "br,gzip", "gzip", "x-gzip, br", "xx-gzip", "xgzip", "gzip;q=0.5, br", "br, gzip;q=0.5", "identity",
+		"gzip, x-caf\xe9", "gzip, x-caf\xe8", "x-caf\xe9, gzip"},
 	"Te":              {"trailers, gzip", "gzip, trailers", "gzip,trailers", "trailers", "x-gzip, trailers"},
 	"Accept": {"text/html, application/json", "application/json, text/html", "text/html", "text/html;q=0.9, */*;q=0.1",
 		// media-type parameters belong to the member: these are four different requests (and the last two are one)
 		"text/plain;charset=utf-8, text/plain", "text/plain;charset=utf-8", "text/plain", "application/json;version=1, application/json;version=2",
 		"application/json;version=1", "text/x;a=1;b=2", "text/x;b=2;a=1",
 		// optional white space around the ";" of a parameter (RFC 9110 §5.6.6: OWS ";" OWS) is spelling
-		"text/plain ;charset=utf-8", "text/plain ; charset=utf-8", "text/x ;a=1 ; b=2", "application/json ;version=1"},
+		"text/plain ;charset=utf-8", "text/plain ; charset=utf-8", "text/x ;a=1 ; b=2", "application/json ;version=1",
+		"text/html, x/caf\xe9", "text/html, x/caf\xe8"},
 }
 
 var varyConfigs = []string{"", "X-A", "X-A, X-B", "X-B, X-A", "x-a", "*", "X-A, *", "Content-Language", "User-Agent", "Authorization",
